@@ -30,6 +30,10 @@ func genConf(t *rapid.T) ConfCase {
 	if rapid.Bool().Draw(t, "explicit") {
 		c.SortPerm = rapid.IntRange(1, 1000).Draw(t, "sort")
 	}
+	if rapid.IntRange(0, 19).Draw(t, "zero") == 19 {
+		c.CacheMB, c.SortPerm = 0, 0
+		return c
+	}
 	if rapid.IntRange(0, 3).Draw(t, "near") == 3 { // cache size around 8 x fraction size: where the default rule switches
 		c.CacheMB = max(1, c.FracMB*8*uint64(rapid.IntRange(80, 130).Draw(t, "pct"))/100)
 	}
@@ -39,8 +43,25 @@ func genConf(t *rapid.T) ConfCase {
 func runConf(c ConfCase) (evid.Result, error) {
 	res := evid.Result{}
 	const mb = 1 << 20
-	if c.CacheMB == 0 || c.SortPerm < 0 || c.SortPerm > 1000 {
+	if c.SortPerm < 0 || c.SortPerm > 1000 {
 		return res, evid.Failf("bad_case", "shape")
+	}
+	if c.CacheMB == 0 {
+		// a cache size of 0 (the zero configuration of embedders and of the repository's test
+		// environment) means "no limit": every cleaner keeps the limit 0, which is how it reads
+		// "unlimited" - a limit of one byte would evict everything at every cleaning tick
+		cfg := fracmanager.FillConfigWithDefault(&fracmanager.Config{FracSize: c.FracMB * mb})
+		cm := fracmanager.NewCacheMaintainer(cfg.CacheSize, cfg.SortCacheSize, nil)
+		cleaners, labels := cm.VerifCleaners()
+		for i, cl := range cleaners {
+			if cfg.SortCacheSize == 0 && cl.SizeLimit() != 0 {
+				return res, evid.Failf("unlimited-cache-got-a-limit", "cache size 0 (no limit): cleaner %q gets the limit %d", labels[i], cl.SizeLimit())
+			}
+			res.Evals++
+		}
+		res.Labels = append(res.Labels, "cache-size-0")
+		res.NonTrivial = true
+		return res, nil
 	}
 	cfg := &fracmanager.Config{CacheSize: c.CacheMB * mb, FracSize: c.FracMB * mb}
 	if c.SortPerm > 0 {
